@@ -147,8 +147,8 @@ func statusOf(err error, panicked bool) string {
 		return "ok"
 	case errors.Is(err, cmd.ErrDiffFound):
 		return "diff"
-	case os.IsNotExist(err):
-		return "err" // classified further by the remote/local comparison (C12)
+	case errors.Is(err, os.ErrNotExist):
+		return "notexist"
 	}
 	return "err"
 }
@@ -277,6 +277,9 @@ func init() {
 		remote := a.num("remote", 0) == 1
 		srcBase, prefix := s.srcBaseFor(sb, remote)
 		destBase, dprefix := s.srcBaseFor(db, a.num("remotedest", 0) == 1)
+		if db == "ROOT" {
+			destBase, dprefix = s.root, ""
+		}
 		if dr != "" {
 			dr = filepath.Join(dprefix, dr)
 		}
@@ -462,7 +465,7 @@ func init() {
 			})
 			s.echo(fmt.Sprintf("%s nows=%d clock=%d,%d", strings.Join(tk, " "), t0, t0, t1))
 			st := statusOf(err, panicked)
-			if a.num("sort", 0) == 1 && st == "ok" {
+			if a.num("sort", 0) == 1 && st == "ok" && a.str("textout", "file") == "file" {
 				s.obs("cliviewraw %s sorted=%v", st, sorted)
 			} else {
 				s.obs("cliviewraw %s", st)
@@ -512,6 +515,9 @@ func init() {
 				if !strings.HasPrefix(r, "pt ") {
 					hdr = append(hdr, r)
 				}
+			}
+			if a.str("textout", "file") != "file" {
+				hdr = nil
 			}
 			s.emit("cligenerate", statusOf(err, panicked), hdr)
 			return
